@@ -38,4 +38,18 @@ def demo : List (Op Nat Nat) :=
 example : validB 1 6 (R.empty : R Nat Nat) demo = true := by decide +kernel
 example : (run (empty 1 6 : G Nat Nat) demo).map returned = some [0, 1, 2, 4] := by decide +kernel
 
+/-! ### graphs with slots removed by `join()` (Core/Holes.lean, Core/HolesAlloc.lean), every call sequence -/
+
+/-- the id `next_id()` returns on such a graph is below the capacity, is not a removed slot (so `add` can create it), is absent,
+    is not listed by `keys()`, and the allocator moves just past it -/
+theorem next_id_with_removed_slots (x x' : GX L D) (i : Nat) (h : nextIdX x = some (x', i)) :
+    i < cap x.g ∧ i ∉ x.holes ∧ tag x.g i = 0 ∧ x.g.next ≤ i ∧ i ∉ keysX x ∧ x.acc i = true ∧
+    x'.holes = x.holes ∧ x'.g.next = i + 1 ∧ x.g.next ≤ x'.g.next := nextIdX_spec x x' i h
+
+/-- and it is never returned again, whatever is called in between — calls outside the limits, panicking calls and `join`
+    included: every later id is strictly larger -/
+theorem never_again_with_removed_slots (x x1 x2 x3 : GX L D) (i j : Nat) (ops : List (OpX L D))
+    (h1 : nextIdX x = some (x1, i)) (hr : (runX x1 ops).1 = x2) (h2 : nextIdX x2 = some (x3, j)) : i < j :=
+  nextIdX_never_again x x1 x2 x3 i j ops h1 hr h2
+
 end Props.C05
